@@ -100,8 +100,41 @@ def parameter_probe(ctx, n: int) -> None:
             rep.count(f"rejected:{type(e).__name__}")
 
 
+def duplicate_names_probe(ctx, n: int) -> None:
+    """segments in which several (different) elements carry the same name — `Segment` supports that and lists them under
+    `segment.<name>` —, flat and nested: the clone must equal the original position by position"""
+    import copy
+    import numpy as np
+    from fals import _full as FU
+    rep, rng = ctx.report, ctx.rng
+    for _ in range(n):
+        case = F.gen_element_case(rng)
+        if case["record"]["cls"] != "Segment":
+            continue
+        lv = FU.leaves(case["record"]["elements"])
+        if len(lv) < 2:
+            continue
+        # give a second element the name of the first of the same class (or of any element)
+        i = int(rng.integers(len(lv)))
+        same = [k for k in range(len(lv)) if k != i and lv[k]["cls"] == lv[i]["cls"]]
+        if not same or rng.random() < 0.25:
+            r2 = FU.gen_full(rng, lv[i]["cls"], lv[i]["name"], p_set=1.0)
+            F._tame(rng, r2)
+            case["record"]["elements"].insert(int(rng.integers(len(case["record"]["elements"]) + 1)), r2)
+        else:
+            lv[same[int(rng.integers(len(same)))]]["name"] = lv[i]["name"]
+        case["mutations"] = ["assign"]
+        case["probe"] = "duplicate-names"
+        rep.fals_cases += 1
+        rep.count("probe:duplicate-names")
+        rep.case(("dupnames", lv[i]["cls"]), None)
+        F.examine(rep, case, do_shrink=False)
+
+
 def run(ctx) -> None:
     parameter_probe(ctx, ctx.n(28, 400))
+    if F is not None:
+        duplicate_names_probe(ctx, ctx.n(12, 250))
     if F is not None:
         F.run(ctx)
 
